@@ -11,11 +11,12 @@ import random
 
 PROPERTY = "C06"
 RULE = (
-    "case = (kernel spec, parameter batch x input batch pattern, n1, n2, chunk of index expressions); index expressions = product of "
-    "per-dimension candidate sets (ints +/-, slices over start/stop in {None,0,1,-1,-2,n,n+5} x steps {None,1,2,3}, index tensors sorted/"
-    "unsorted/repeated) over the operator's shape, at most one index tensor, plus Ellipsis placements; relational cells: diag, "
-    "transpose, repeat, stacked blocks, kernel[i], expand_batch; distinct = (kernel, batch pattern, index kinds); non-trivial iff the "
-    "expression selects >=1 and fewer than all entries (relational cells always)"
+    'case = (kernel spec, parameter batch x input batch pattern, n1, n2, chunk of index expressions); index expressions = product of '
+    'per-dimension candidate sets (ints +/-, slices over start/stop in {None,0,1,-1,-2,n,n+5} x steps {None,1,2,3}, index tensors '
+    "sorted/unsorted/repeated) over the operator's shape, at most one index tensor, plus Ellipsis placements; relational cells: diag, transpose, "
+    'repeat, stacked blocks, kernel[i], expand_batch, active_dims vs a twin kernel on hand-picked columns, kernel batch size == n; kernel batch '
+    'shapes of lower rank / size 1 against the input batch; distinct = (kernel, batch pattern, index kinds); non-trivial iff the expression '
+    'selects >=1 and fewer than all entries (relational cells always)'
 )
 REQUIRED = ["lazy_equals_eager", "lazy_index", "diag_equals_diagonal", "transpose", "stacked_blocks", "kernel_getitem", "expand_batch", "path:lazy_getitem"]
 ASSUMPTIONS = ["torch dense indexing D[idx] is the reference semantics of an index expression"]
